@@ -19,6 +19,11 @@ def harnesses(tier, seed):
         hs.append(H("c06::c06_parent_%s_while_entered" % n, desc="with a span entered on the thread: " + d + "; the current span is unaffected", sym="metadata level"))
     hs.append(H("c06::c06_scope_leaf_to_root", desc="registry chain g<-p<-c: SpanRef::scope() from c and from p yields exactly the ancestors leaf to root; ancestors readable after their handles are gone", sym="metadata levels"))
     hs.append(H("c06::c06_scope_from_root", desc="Scope::from_root() on the same chain yields g, p, c"))
+    for n, d in (("root", "an explicit-root event belongs to no span whatever is current"),
+                 ("explicit_parent", "an explicit parent overrides the current span"),
+                 ("contextual", "a contextual event belongs to the thread's current span")):
+        hs.append(H("c07ctx::c06_ctx_event_" + n, desc="Context::event_span / event_scope as a layer sees them: " + d + " (LookupSpan stand-in with a chain of 3 spans, seen through a per-layer filter with arbitrary per-span bitmaps)",
+                    sym="current span, explicit parent id, per-span filter bitmaps"))
     hs.append(H("c06::c06_parent_resolution_two_threads", tier="thorough", desc="two threads entered in different spans: each thread's current span is its own; a contextual span created on a solver-chosen thread gets that thread's current span as parent", sym="creating thread"))
     # registry level: the C05 skeletons that enter spans or create contextual spans carry the current-span and
     # parent-resolution assertions
@@ -31,11 +36,11 @@ SPEC = {
     "group": "subscriber",
     "level": "model_checking",
     "harnesses": [],
-    "caps": {"quick_harness_timeout": 600, "thorough_harness_timeout": 900, "jobs": 8, "mem_gb": 20},
-    "functions": ["tracing_subscriber::registry::stack::SpanStack::{push, pop, iter, current}", "Registry::{enter, exit, current_span, new_span (contextual / explicit / root parent resolution)}", "LookupSpan::{span, span_data}, SpanData::parent, SpanRef::{parent, scope}, Scope::{next, from_root}"],
+    "caps": {"quick_harness_timeout": 600, "thorough_harness_timeout": 900, "jobs": 12, "mem_gb": 20},
+    "functions": ["tracing_subscriber::registry::stack::SpanStack::{push, pop, iter, current}", "Registry::{enter, exit, current_span, new_span (contextual / explicit / root parent resolution)}", "LookupSpan::{span, span_data}, SpanData::parent, SpanRef::{parent, scope}, Scope::{next, from_root}", "Context::{event_span, event_scope, lookup_current, span}"],
     "sym": "ids in the SpanStack kernel; metadata levels at registry level",
     "bounds": "kernel: all push/pop sequences of <= 4 (quick) / <= 5 (thorough) operations over ids {1,2,3}; registry: the C05 skeleton bounds",
-    "outside": "Context::{lookup_current, event_scope} from inside a layer and per-layer-filtered scope walks; tracing-error SpanTrace (formats fields into heap strings); chains > 3; the 'current' clause excludes re-entry exactly as the statement does",
+    "outside": "Context::lookup_current's stack walk over the real Registry when the current span is hidden from the layer (event_span / event_scope / lookup_current are decided over a LookupSpan stand-in, see C07 c07ctx); tracing-error SpanTrace (formats fields into heap strings); chains > 3; the 'current' clause excludes re-entry exactly as the statement does",
     "stubs": ["core::fmt::write -> Ok(())", "H2 forwarders VSpanStack", "registry-level: as C05"],
     "assumptions": ["list model: pop removes the last matching entry; current = most recent non-duplicate entry"],
     "manifest": {
